@@ -689,4 +689,57 @@ def syncPlan (ids : Nat → Int) (elements : List PV) : Except Err (List (List P
     pure (appendSync ids 0 cs)
   else pure [elements ++ [syncMsg (ids 0)]]
 
+/-! ## `SynthDef._do_send` and `BundleNetAddr` (users of the size prediction / clumping) -/
+
+/-- `['/d_recv', self.as_bytes(), completion_msg]` -/
+def dRecvMsg (defBytes : Bytes) (completion : PV) : List PV :=
+  [.str [0x2F, 0x64, 0x5F, 0x72, 0x65, 0x63, 0x76], .bytes defBytes, completion]
+
+/-- `_do_send`: the definition goes out as `/d_recv` iff the predicted size of the WHOLE message
+    (completion message included) is within the UDP limit; otherwise `/d_load` is used -/
+def doSendFits (defBytes : Bytes) (completion : PV) : Except Err Bool := do
+  let n ← calcMsg (dRecvMsg defBytes completion)
+  pure (decide (n ≤ maxUdpDgramSize))
+
+/-- operations on a `BundleNetAddr` (context manager of `server.bind()`) -/
+inductive BOp where
+  | msg (e : PV)                          -- send_msg
+  | extend (es : List PV)                 -- send_bundle / send_clumped_bundles (time discarded)
+  | sync (elements : Option (List PV))    -- sync(latency, elements)
+deriving Repr
+
+/-- `_bundle` (`none` = the `_SYNC_FLAG` entry) and `_last_sync` -/
+structure BNA where
+  bundle : List (Option PV)
+  lastSync : Int
+deriving Repr
+
+def BNA.init : BNA := ⟨[], -1⟩
+
+/-- `self._bundle[self._last_sync+1:]` -/
+def BNA.pending (b : BNA) : List PV := (b.bundle.drop (b.lastSync + 1).toNat).filterMap id
+
+/-- what is handed to the saved `NetAddr` -/
+inductive BSend where
+  | clumped (els : List PV)               -- send_clumped_bundles(time, *els)
+  | sync (elements : Option (List PV))    -- sync(None, latency, elements)
+deriving Repr
+
+def sendPending (p : List PV) : List BSend := if p.isEmpty then [] else [.clumped p]
+
+def BNA.step (b : BNA) : BOp → BNA × List BSend
+  | .msg e => ({ b with bundle := b.bundle ++ [some e] }, [])
+  | .extend es => ({ b with bundle := b.bundle ++ es.map some }, [])
+  | .sync el => (⟨b.bundle ++ [none], b.bundle.length⟩, sendPending b.pending ++ [.sync el])
+
+/-- `__exit__` -/
+def BNA.exit (b : BNA) : List BSend := sendPending b.pending
+
+def BNA.run (b : BNA) : List BOp → BNA × List BSend
+  | [] => (b, [])
+  | op :: ops =>
+    let (b1, s1) := b.step op
+    let (b2, s2) := b1.run ops
+    (b2, s1 ++ s2)
+
 end Sc3Verif.C06
